@@ -154,4 +154,18 @@ theorem parsePublicKey_ed25519Blob (k : Bytes) (hk : k.length = 32) :
   rw [h2]
   simp [hk]
 
+theorem fixedBE_length (w n : Nat) : (fixedBE w n).length = w := by
+  induction w generalizing n with
+  | zero => rfl
+  | succ w ih => simp [fixedBE, ih]
+
+theorem beNat_fixedBE (w n : Nat) : beNat (fixedBE w n) = n % 256 ^ w := by
+  induction w generalizing n with
+  | zero => simp [fixedBE, beNat, Nat.mod_one]
+  | succ w ih =>
+    simp only [fixedBE]
+    rw [beNat_snoc, ih, Nat.pow_succ, Nat.mul_comm (256 ^ w) 256, Nat.mod_mul]
+    generalize n / 256 % 256 ^ w = X
+    omega
+
 end WhatIs.Lemmas.SshWire
